@@ -170,6 +170,7 @@ COMMON_RULES = [
     (r'(?<![\w>.])size_t\((?!\*)', '(size_t)(', None),
     (r'(?<![\w>.])wchar_t\((?!\*)', '(wchar_t)(', None),
     (r'\bNULL\b', '((void*)0)', None),
+    (r'(?<![\w.>])this\b', 'self', None),                  # R2
 ]
 
 
